@@ -22,6 +22,8 @@ from .locksim import Sim, SimAbort
 
 SPEC = core.SPEC / "lock"
 PATHS = ["/lk/a", "/lk/b"]
+# other spellings of the same files: the lock is per (normalised) path, whatever the caller writes
+SPELLINGS = {"/lk/a": ["/lk/a", "/lk/./a", "/lk//a", "/lk/x/../a"], "/lk/b": ["/lk/b", "/lk/./b", "/lk/y/../b"]}
 
 
 # ----------------------------------------------------------------------------- running programs on the real code
@@ -42,9 +44,10 @@ def _match_rel(ops, i):
 class Execution:
     """One run of a set of thread programs on the real lock module under a given scheduler."""
 
-    def __init__(self, programs: dict, procof: dict):
+    def __init__(self, programs: dict, procof: dict, spell_seed: int = 0):
         core.use_repo()
         self.programs, self.procof = programs, procof
+        self.spell_seed = spell_seed
         self.sim = Sim(core.REPO / "src", max(procof.values()), PATHS)
         self.events = []
         self.cur_req = {}
@@ -53,6 +56,13 @@ class Execution:
         self.outcomes = {t: [] for t in programs}
         for t in sorted(programs):
             self.sim.add_thread(t, procof[t], self._make_runner(t))
+
+    def spell(self, t, i, p):
+        """The caller's spelling of path p for operation i of thread t (deterministic in spell_seed; 0 = canonical)."""
+        if not self.spell_seed:
+            return p
+        alts = SPELLINGS.get(p, [p])
+        return alts[(self.spell_seed * 7919 + t * 104729 + i * 1299709) % len(alts)]
 
     def _k(self):
         return [[p, q, m] for p, d in self.sim.kernel.snapshot().items() for q, m in d.items()]
@@ -86,8 +96,9 @@ class Execution:
                 self.phase[t] = "acquiring"
                 self.log("Req", t, p=op["p"], sh=op["sh"], bl=op["bl"], re=op["re"])
                 entered = False
+                spelled = self.spell(t, i, op["p"])
                 try:
-                    with mod.path_lock(op["p"], shared=op["sh"], blocking=op["bl"], reentrant=op["re"]):
+                    with mod.path_lock(spelled, shared=op["sh"], blocking=op["bl"], reentrant=op["re"]):
                         entered = True
                         self.phase[t] = "holding"
                         self.outcomes[t].append("granted")
@@ -274,13 +285,14 @@ def dfs_program(arg):
     """Systematic exploration of the schedules of one program tuple on the real code: stateless DFS with a
     pre-emption bound (switching away from a thread that could continue costs one pre-emption; switching when the
     running thread is blocked or finished is free).  Returns one result per executed schedule."""
-    programs, procof, bound, max_runs = arg
+    programs, procof, bound, max_runs = arg[:4]
+    spell_seed = arg[4] if len(arg) > 4 else 0
     results = []
     stack = [[]]
     seen = set()
     while stack and len(results) < max_runs:
         prefix = stack.pop()
-        ex = Execution(programs, procof)
+        ex = Execution(programs, procof, spell_seed=spell_seed)
         record = []  # (enabled, chosen, current-before)
         cur = [None]
 
@@ -301,7 +313,7 @@ def dfs_program(arg):
             continue
         seen.add(key)
         results.append({"programs": programs, "procof": procof, "schedule": sched, "trace": ex.trace(), "errors": ex.errors,
-                        "outcomes": ex.outcomes})
+                        "outcomes": ex.outcomes, "spell_seed": spell_seed})
         # pre-emptions used along the executed schedule
         used = 0
         pre = []
@@ -323,17 +335,18 @@ def dfs_program(arg):
 def run_one(arg):
     programs, procof, mode, seed = arg
     rng = random.Random(seed)
-    ex = Execution(programs, procof)
+    ex = Execution(programs, procof, spell_seed=(seed if seed % 3 else 0))
     chooser = random_chooser(rng) if mode == "random" else pct_chooser(rng, len(programs))
     sched = ex.run(chooser)
     return {"programs": programs, "procof": procof, "schedule": sched, "trace": ex.trace(), "errors": ex.errors,
-            "outcomes": ex.outcomes}
+            "outcomes": ex.outcomes, "spell_seed": ex.spell_seed}
 
 
 def _case_record(r, idx=None):
     tr = r["trace"]
     term = tr["events"][-1]
     rec = {
+        "spell_seed": r.get("spell_seed", 0),
         "programs": {str(k): v for k, v in r["programs"].items()},
         "procof": {str(k): v for k, v in r["procof"].items()},
         "schedule": r["schedule"],
@@ -437,7 +450,8 @@ def main(tier: str, seed: int) -> int:
     rng.shuffle(core_programs)
     n_core = {"quick": 40, "thorough": len(core_programs)}[tier]
     bound, max_runs = {"quick": (2, 400), "thorough": (3, 6000)}[tier]
-    dfs_res = core.pmap(dfs_program, [(pr, po, bound, max_runs) for pr, po in core_programs[:n_core]], procs=16, chunk=1)
+    # every second program is run with non-canonical spellings of the path (same file, other text)
+    dfs_res = core.pmap(dfs_program, [(pr, po, bound, max_runs, (rng.randrange(1, 1 << 20) if k % 2 else 0)) for k, (pr, po) in enumerate(core_programs[:n_core])], procs=16, chunk=1)
     flat = [r for rs in dfs_res for r in rs]
     v.add_coverage(dfs_programs=n_core, dfs_schedules=len(flat), dfs_preemption_bound=bound)
     results = results + flat
@@ -458,7 +472,7 @@ def replay(path: str) -> int:
     programs = {int(k): v for k, v in case["programs"].items()}
     procof = {int(k): v for k, v in case["procof"].items()}
     sched = list(case["schedule"])
-    ex = Execution(programs, procof)
+    ex = Execution(programs, procof, spell_seed=case.get("spell_seed", 0))
 
     def chooser(n, en, ex_):
         t = sched[n] if n < len(sched) and sched[n] in en else en[0]
